@@ -477,6 +477,15 @@ type Contract struct {
 	Alloc    *SExpr
 	Impl     []string // interface contracts this function must also satisfy
 	Anys     []binder // universally quantified ghost constants ("any t int")
+	WrapOK   []string // source texts of conversions/operations whose wrap-around is intended
+	Cases    []CaseSplit
+}
+
+// CaseSplit: the entry state is split by the value of Expr (one path per listed value plus one for
+// "none of them"); purely a proof hint, sound because the split is exhaustive.
+type CaseSplit struct {
+	Expr   *SExpr
+	Values []*SExpr
 }
 
 type SpecFunc struct {
@@ -509,11 +518,12 @@ type SpecSet struct {
 	Ghosts    map[string]*GhostDecl
 	NoEffect  map[string]bool // library functions without effect on verified state
 	Consts    map[string]*SExpr
+	GhostInits map[string][]LetDef // pkgpath#Type -> ghost map initialisations at &T{...}
 }
 
 func newSpecSet() *SpecSet {
 	return &SpecSet{Contracts: map[string]*Contract{}, Funcs: map[string]*SpecFunc{}, Ghosts: map[string]*GhostDecl{},
-		NoEffect: map[string]bool{}, Consts: map[string]*SExpr{}}
+		NoEffect: map[string]bool{}, Consts: map[string]*SExpr{}, GhostInits: map[string][]LetDef{}}
 }
 
 type ContractError struct{ msg string }
@@ -522,7 +532,7 @@ func (c ContractError) Error() string { return "CONTRACT-ERROR: " + c.msg }
 
 var clauseKeywords = map[string]bool{"func": true, "requires": true, "ensures": true, "modifies": true, "loop": true,
 	"spec": true, "axiom": true, "pred": true, "ghost": true, "inline": true, "trusted": true, "let": true, "tags": true,
-	"noeffect": true, "pure": true, "mode": true, "update": true, "const": true, "alloc": true, "implements": true, "end": true, "any": true}
+	"noeffect": true, "pure": true, "mode": true, "update": true, "const": true, "alloc": true, "implements": true, "end": true, "any": true, "wrapok": true, "ghostinit": true, "cases": true}
 
 // parseContractText parses the //@ lines of one file. pkg is the package path ("" for library specs).
 func (ss *SpecSet) parseContractText(file, pkg string, lines []string, lineNos []int) error {
@@ -704,6 +714,50 @@ func (ss *SpecSet) parseContractText(file, pkg string, lines []string, lineNos [
 				b.Type = f[1]
 			}
 			cur.Anys = append(cur.Anys, b)
+		case "cases":
+			if cur == nil {
+				return fail(it, "cases outside func")
+			}
+			i := strings.Index(rest, ":")
+			if i < 0 {
+				return fail(it, "cases EXPR: v1, v2, ...")
+			}
+			ex, err := parseSpecExpr(rest[:i])
+			if err != nil {
+				return fail(it, err.Error())
+			}
+			cs := CaseSplit{Expr: ex}
+			for _, part := range splitTop(rest[i+1:], ',') {
+				v, err := parseSpecExpr(part)
+				if err != nil {
+					return fail(it, err.Error())
+				}
+				cs.Values = append(cs.Values, v)
+			}
+			cur.Cases = append(cur.Cases, cs)
+		case "wrapok":
+			if cur == nil {
+				return fail(it, "wrapok outside func")
+			}
+			cur.WrapOK = append(cur.WrapOK, strings.Join(strings.Fields(rest), ""))
+		case "ghostinit":
+			// ghostinit TYPE: ghostmap[this] = expr
+			i := strings.Index(rest, ":")
+			j := strings.Index(rest, "=")
+			if i < 0 || j < i {
+				return fail(it, "ghostinit TYPE: map[this] = expr")
+			}
+			tname := strings.TrimSpace(rest[:i])
+			lhs := strings.TrimSpace(rest[i+1 : j])
+			k := strings.Index(lhs, "[")
+			if k < 0 {
+				return fail(it, "ghostinit TYPE: map[this] = expr")
+			}
+			e, err := parseSpecExpr(rest[j+1:])
+			if err != nil {
+				return fail(it, err.Error())
+			}
+			ss.GhostInits[pkg+"#"+tname] = append(ss.GhostInits[pkg+"#"+tname], LetDef{Name: strings.TrimSpace(lhs[:k]), Expr: e})
 		case "tags":
 			if cur == nil {
 				return fail(it, "tags outside func")
